@@ -4,11 +4,13 @@ from __future__ import annotations
 
 import sys
 from abc import ABC, abstractmethod
+from collections.abc import Mapping
 from dataclasses import dataclass, field
 from enum import Enum
 from typing import TYPE_CHECKING, Any, Callable, ClassVar, Optional, Type, Union
 
 from pydantic import BaseModel, Extra
+from pydantic.errors import DictError
 
 from ._symbol_table import SymbolTable
 
@@ -307,6 +309,15 @@ class OpenJDModel(BaseModel):
     # This metadata instructs the recursive algorithm as to what special
     # treatment the model needs during translation from Template to Job.
     _job_creation_metadata: ClassVar[JobCreationMetadata] = JobCreationMetadata()
+
+    @classmethod
+    def validate(cls, value: Any) -> Any:
+        # pydantic builds a model out of anything that dict() accepts, so a list of
+        # [key, value] pairs given where an object belongs would silently become that object.
+        # Only a mapping (or an instance of a model) is an object.
+        if not isinstance(value, (Mapping, BaseModel)):
+            raise DictError()
+        return super().validate(value)
 
 
 class JobParameterInterface(ABC):
